@@ -436,6 +436,17 @@ def organize(
         for t in dawgie.pl.schedule.ae.at:
             for n in t.locate(tn):
                 jobs[n.tag] = n
+
+                if n.get('todo'):
+                    # targets organized earlier are still waiting to be
+                    # released under this node's run ID, so never move it
+                    # backward: None (draw a new ID) is the latest of all
+                    known = n.get('runid')
+                    if known is None or runid is None:
+                        runid = None
+                    else:
+                        runid = max(known, runid)
+
                 n.set('runid', runid)
                 n.set(
                     'status',
